@@ -389,6 +389,28 @@ fn main() {
         }
     }
     let s2 = s2.merge(s_long);
+    // a value written as a template is the value it renders to: `--bump-minor '{{ major }}'` equals `--bump-minor=<major>` where <major> is the
+    // major the version has once the tag-version override (if any) is applied - for every start, with and without `--tag-version`, for overrides and
+    // bumps by name and by index, reading major / minor / patch. Differential between two runs of the real pipeline (the literal run itself is
+    // judged against R-BUMP by the layers above).
+    let mut s_tpl = Stats::default();
+    for env in envs.iter().filter(|e| e.schema_name != "calver-base") {
+        for tag in [None, Some(("9.8.7", [9u64, 8, 7])), Some(("4.5.6-rc.2", [4, 5, 6]))] {
+            if tag.is_some() && env.start.stdin.is_none() && env.start.args.iter().any(|x| x == "--tag-version") { continue; }
+            let core = match tag { Some((_, c)) => c, None => [env.init.vars.major.unwrap_or(0), env.init.vars.minor.unwrap_or(0), env.init.vars.patch.unwrap_or(0)] };
+            for (vi, var) in ["major", "minor", "patch"].iter().enumerate() {
+                if core[vi] > 1000 { continue; }
+                for flag in ["--bump-minor", "--bump-patch", "--bump-major", "--patch", "--minor", "--post", "--bump-post", "--bump-core=1", "--core=2", "--bump-core=~1"] {
+                    let mk = |val: &str| { let mut v: Vec<String> = tag.map(|(t, _)| a(&["--tag-version", t])).unwrap_or_default(); v.push(format!("{flag}={val}")); v };
+                    let lit = run(&env.start, &env.schema_args, &mk(&core[vi].to_string()));
+                    let tpl = run(&env.start, &env.schema_args, &mk(&format!("{{{{ {var} }}}}")));
+                    s_tpl.inc("templated_value_cases"); s_tpl.add("runs", 2);
+                    let same = match (&lit, &tpl) { (Ok(Res::Ok(x)), Ok(Res::Ok(y))) => x == y, (Ok(Res::Ok(_)), _) | (_, Ok(Res::Ok(_))) => false, _ => true };
+                    if !same { ctx.violation("templated_value_differs_from_literal", format!("{} / {} / {}{flag}='{{{{ {var} }}}}'", env.start.name, env.schema_name, tag.map(|(t, _)| format!("--tag-version {t} ")).unwrap_or_default()), json!({"kind":"template-vs-literal","start":env.start.name,"schema":env.schema_name,"flag":flag,"var":var,"tag":tag.map(|t| t.0)}), format!("with the literal {}: {:?}; with the template: {:?}", core[vi], lit.as_ref().map(|r| truncate(&format!("{r:?}"), 200)), tpl.as_ref().map(|r| truncate(&format!("{r:?}"), 200)))); }
+                }
+            }
+        }
+    }
     // chaining through --source stdin: B applied to the zerv-format output of A
     let mut s3 = Stats::default();
     for env in envs.iter().filter(|e| e.schema_name != "calver-base" || !quick) {
@@ -445,7 +467,7 @@ fn main() {
         s4.add("process_conformance_cases", slice.len() as u64);
         for (k, e) in bad { ctx.violation("binary_differs_from_inprocess", k, json!({"kind":"proc"}), e); }
     }
-    let all = total.merge(s2).merge(s3).merge(s4.clone());
+    let all = total.merge(s2).merge(s3).merge(s_tpl).merge(s4.clone());
     let mut cov = Coverage::default();
     cov.states = all.get("subsets") + all.get("long_section_cases") + all.get("grid_cases") + all.get("invalid_target_cases") + all.get("boundary_amount_cases") + all.get("chain_runs");
     cov.transitions = all.get("runs") + all.get("chain_runs");
